@@ -16,7 +16,6 @@ a=s.index('| seed | change | checks that report it | by its own property\'s chec
 b=s.index('Checks strengthened because a seed was first missed')
 s=s[:a]+'| seed | change | checks that report it | by its own property\'s check |\n|------|--------|-----------------------|-----------------------------|\n'+'\n'.join(rows)+'\n\n'+s[b:]
 import re
-s=re.sub(r'Result: \d+ of \d+ changes are reported by at least one check, \d+ of \d+ by the check\nof the property they were written against \(the others are reported by the check\nof the property whose mechanism they actually break, e\.g\. the shallow-array\n`deepCopy` written against C04/C06/C18 is an isolation defect and is reported by\nC10-R2\)\.',
-         'Result: %d of %d changes are reported by at least one check, %d of %d by the check\nof the property they were written against (several are also reported by the checks\nof neighbouring properties whose mechanism they break, e.g. the shallow-array\n`deepCopy` written against C04/C06/C10/C18 is reported by all four through the shared\nscript-isolation rule).'%(some,tot,tg,tot), s)
+s=re.sub(r'Result: \d+ of \d+ changes are reported by at least one check, \d+ of \d+ by the check', 'Result: %d of %d changes are reported by at least one check, %d of %d by the check'%(some,tot,tg,tot), s)
 open(p,'w').write(s)
 print(some,tg,tot)
